@@ -71,7 +71,7 @@ theorem coin_half_usable : 0 < Rapid.Generated.ft.coinHalf ∧ Rapid.Generated.f
     is handed on by `genIntRange`, with neither overflow flag raised -/
 theorem every_small_int_reachable (a b c : Int) (hac : a ≤ c) (hcb : c ≤ b) (hsm : -2 ^ 40 ≤ a ∧ b ≤ 2 ^ 40)
     (hw : b - a < 4096) (fuel : Nat) :
-    Reaches (fun (k : Int64 × Bool × Bool → Prog) =>
+    ReachesVal (fun (k : Int64 × Bool × Bool → Prog) =>
       intRange Rapid.Generated.ft (Int64.ofInt a) (Int64.ofInt b) (fuel + 1) (fun i l r => k (i, l, r))) (Int64.ofInt c, false, false) :=
   intRange_small_reaches _ measured_tables_small_reach coin_half_usable a b c hac hcb hsm hw fuel
 
@@ -80,13 +80,13 @@ theorem every_small_int_reachable (a b c : Int) (hac : a ≤ c) (hcb : c ≤ b) 
     the range admits -/
 theorem every_float64_reachable (min max t : UInt64) (hok : floatRangeOK fmt64 min max = true)
     (ht : FloatTarget fmt64 min max t) (fuel : Nat) :
-    Reaches (floatValue Rapid.Generated.ft fmt64 min max (fuel + 1)) t :=
+    ReachesVal (floatValue Rapid.Generated.ft fmt64 min max (fuel + 1)) t :=
   floatValue_reaches _ measured_tables_small_reach coin_half_usable fmt64 wf64 (by decide) min max t hok ht fuel
 
 /-- **every float32 likewise** -/
 theorem every_float32_reachable (min max t : UInt64) (hok : floatRangeOK fmt32 min max = true)
     (ht : FloatTarget fmt32 min max t) (fuel : Nat) :
-    Reaches (floatValue Rapid.Generated.ft fmt32 min max (fuel + 1)) t :=
+    ReachesVal (floatValue Rapid.Generated.ft fmt32 min max (fuel + 1)) t :=
   floatValue_reaches _ measured_tables_small_reach coin_half_usable fmt32 wf32 (by decide) min max t hok ht fuel
 
 /-- the hypotheses are satisfiable — the edges and zero of `[-1.5, 2.5]`, the bounds of
